@@ -531,7 +531,7 @@ func evaluate(c bodyCase) (obs observation, fails []failure, texts []string, len
 			case count(a.Idx, a.DLine) == 0 && len(indexNames[a.Idx]) > 255:
 				fails = append(fails, failure{"bulk_store_failure_reported_created",
 					fmt.Sprintf("item %d is 201, errors=%v, but the document is not searchable: its index name has %d bytes and the store call failed", i, obs.Errors, len(indexNames[a.Idx]))})
-			case count(a.Idx, a.DLine) == 0 && a.Idx >= 40 && isBad(c, a.Idx):
+			case count(a.Idx, a.DLine) == 0 && a.Idx >= 40 && strings.HasSuffix(c.Stream, "/step2"):
 				fails = append(fails, failure{"bulk_created_after_fieldless_first_block_not_searchable",
 					fmt.Sprintf("item %d is 201, errors=%v, but document line %d is not found in %s after the flush: the first block of that index's segment held only documents without any field", i, obs.Errors, a.DLine, indexNames[a.Idx])})
 			case count(a.Idx, a.DLine) == 0:
@@ -577,15 +577,6 @@ func evaluate(c bodyCase) (obs observation, fails []failure, texts []string, len
 		}
 	}
 	return
-}
-
-func isBad(c bodyCase, ix int) bool {
-	for _, b := range c.BadIndex {
-		if b == ix {
-			return true
-		}
-	}
-	return false
 }
 
 // ---------- generators ----------
@@ -827,18 +818,19 @@ func genFieldless(r *vhlib.Rng) bodyCase {
 	return c
 }
 
-// known class: a fresh index whose first block holds only field-less documents (step 1: they are
-// searchable), then an ordinary document into the same index (step 2: acknowledged, never searchable)
+// regression (repaired in /repo by 2a1b376): a fresh index whose first block holds only field-less
+// documents (step 1: they are searchable), then an ordinary document into the same index (step 2:
+// before the fix it was acknowledged and never became searchable)
 func genFieldlessFirst(r *vhlib.Rng, k int) []bodyCase {
 	ix := freshIdx(k)
-	s1 := bodyCase{Stream: "known/fieldless_first_block/step1", FinalNL: true}
+	s1 := bodyCase{Stream: "regression/fieldless_first_block/step1", FinalNL: true}
 	for i := 0; i < r.Range(1, 3); i++ {
 		s1.Lines = append(s1.Lines, mk("index", ix), fieldlessDoc(r))
 	}
 	if r.Bool() {
 		s1.Lines = append(s1.Lines, mk("index", 1), mk("doc", 0))
 	}
-	s2 := bodyCase{Stream: "known/fieldless_first_block/step2", FinalNL: true, BadIndex: []int{ix}}
+	s2 := bodyCase{Stream: "regression/fieldless_first_block/step2", FinalNL: true}
 	s2.Lines = append(s2.Lines, mk("index", ix), mk("doc", 0))
 	if r.Bool() {
 		s2.Lines = append(s2.Lines, mk("index", 2), mk("doc", 0), mk("index", ix), mk("doc_ts_only", 0))
@@ -992,12 +984,12 @@ func main() {
 	for i := 0; i < nFieldless; i++ {
 		cases = append(cases, genFieldless(rF))
 	}
-	// last: a poisoned index rewrites its first block at every later flush of the process
+	// last: before the fix 2a1b376 such an index rewrote its first block at every later flush of the process
 	for k := 0; k < nFresh; k++ {
 		cases = append(cases, genFieldlessFirst(rFF, k)...)
 	}
 
-	known := map[string]bool{"bulk_store_failure_reported_created": true, "bulk_created_after_fieldless_first_block_not_searchable": true}
+	known := map[string]bool{"bulk_store_failure_reported_created": true}
 	reported := map[string]int{}
 	var coqCases []string
 	shard := 0
